@@ -97,7 +97,7 @@ def run(check):
     n = check.pick(300, 4000)
     check.rule = ("foreach programs: item counts {0,1,2,3,7,16,64}, parallelism {default,1,2,n,>n,expression}, sub-workflows of 1-2 steps with or without a declared error "
                   "output, nested loops, per-item outcomes (success/error/crash/alt) and out-of-order completion forced by gates (item 0 finishes after item 1), a "
-                  "consumer of the loop result, cancellation mid-loop, bursts of 16-64 items failing together, loops over an earlier step's result with slow items; oracles: returned data equals the reference (length, order, per-item provenance tag, exact "
+                  "consumer of the loop result, cancellation mid-loop, bursts of 16-64 items failing together, loops over an earlier step's result with slow items, loops (top-level and inside items) closed while still waiting for their items; oracles: returned data equals the reference (length, order, per-item provenance tag, exact "
                   "failing index sets), every item execution received its own item, high-water mark of concurrently open item executions <= parallelism, cancelled "
                   "loops never report success; non-trivial = >=2 items; distinct = (n, parallelism, failure pattern, out-of-order, returned id)")
     check.assumptions = ["an item 'fails' if its run returns an error or a non-success output (property statement)"]
@@ -160,6 +160,43 @@ def run(check):
         g = {"program": prog, "scripts": scripts, "input": {"tag": "T1"}, "shape": "loop after a step, slow items n=%d par=%d via %s" % (nn, par, how), "outcome": {}, "n": nn, "par": par,
              "first_src": "sub_w0", "nested": False}
         case, sem = runfam.build_case("c13-a%04d" % i, g)
+        items.append((case, sem, g))
+    # a loop that is closed while it still waits for its items: the step it waits for ends otherwise (error output, crash, failed
+    # deployment) - at the top level, and inside the items of an outer loop (the outer loop must report exactly those items)
+    for i in range(check.pick(40, 240)):
+        rng = random.Random(derive_seed(check.seed, "c13-noinput", i))
+        how = rng.choice(["items", "wait_for"])
+        bad = rng.choice(["error", "crash", "deployfail"])
+        nested = i % 2 == 1
+
+        def waiting_loop(name, subname, src_step):
+            inner = gen.sub_program(subname, 1)
+            fe = Step(name, "foreach", sub=inner, parallelism=rng.choice([1, 2]),
+                      items=[{"tag": gen.tagref(src_step)}, {"tag": "k"}] if how == "items" else [{"tag": "k0"}, {"tag": "k1"}])
+            if how == "wait_for":
+                fe.fields["wait_for"] = Expr(Ref(src_step, "outputs", "success"))
+            return fe
+        if not nested:
+            steps = [gen.plugin_step("a", Expr(In("tag"))), waiting_loop("loop", "sub.yaml", "a")]
+            rng.shuffle(steps)
+            prog = Program(steps, {"success": {"d": Expr(Ref("loop", "outputs", "success", "data"))}, "failed": {"e": Expr(Ref("loop", "failed", "error"))}}, gen.BASE_INPUT)
+            scripts = gen.make_scripts(steps, {"a": bad})
+            g = {"program": prog, "scripts": scripts, "input": {"tag": "T1"}, "shape": "loop closed while waiting for its %s (source: %s)" % (how, bad), "outcome": {"a": bad}, "n": 2, "par": 2,
+                 "first_src": "sub_w0", "nested": True}
+        else:
+            nn = rng.choice([2, 3, 4])
+            substeps = [gen.plugin_step("w", Expr(In("tag")), src="sub_w"), waiting_loop("inner", "sub2.yaml", "w")]
+            rng.shuffle(substeps)
+            sub = Program(substeps, {"success": {"t": Expr(Ref("inner", "outputs", "success", "data"))}}, gen.SUB_INPUT, name="sub.yaml")
+            fe = Step("loop", "foreach", sub=sub, items=Expr(In("items")), parallelism=rng.choice([1, 2, nn]))
+            prog = Program([fe], {"success": {"d": Expr(Ref("loop", "outputs", "success", "data"))}, "failed": {"e": Expr(Ref("loop", "failed", "error"))}}, gen.BASE_INPUT)
+            scripts = gen.make_scripts([fe], {})
+            failing = sorted(rng.sample(range(nn), rng.choice([1, nn]) if nn > 1 else 1))
+            by_tag = {"i%d" % j: {"outcome": "crash" if bad == "deployfail" else bad} for j in failing}
+            scripts.setdefault("sub_w", {})["exec_by_tag"] = by_tag
+            g = {"program": prog, "scripts": scripts, "input": {"tag": "T1", "items": [{"tag": "i%d" % j} for j in range(nn)]},
+                 "shape": "inner loop closed while waiting for its %s in items %s of %d (source: %s)" % (how, failing, nn, bad), "outcome": by_tag, "n": nn, "par": nn, "first_src": "sub_w", "nested": True}
+        case, sem = runfam.build_case("c13-w%04d" % i, g)
         items.append((case, sem, g))
     stats = {"max_hwm": 0, "hwm_equal_parallelism": 0, "out_of_order_runs": 0, "success_results": 0, "failure_results": 0, "cancelled_runs": 0}
     with harness.Runner() as rn:
